@@ -32,6 +32,19 @@ fn wrap(module: &str, case: Value) -> String {
     json!({"module": module, "case": case}).to_string()
 }
 
+/// Use an accepted encoding the way a caller would: stripe, count symbols, display.
+fn use_encoded<A: Alphabet>(text: &[u8]) -> usize {
+    match lightmotif::seq::EncodedSequence::<A>::encode(text) {
+        Ok(e) => {
+            let s = e.to_striped();
+            let counts = lightmotif::seq::SymbolCount::<A>::count_symbols(&s);
+            let shown = format!("{}", e);
+            counts.iter().sum::<usize>() + shown.len()
+        }
+        Err(_) => 0,
+    }
+}
+
 /// Record a C06 violation if `msg` is a memory-class panic.
 fn memory_panic(rep: &mut Report, module: &str, what: &str, msg: &str, case: impl FnOnce() -> Value) {
     if is_memory_panic(msg) {
@@ -71,7 +84,7 @@ pub fn run(ctx: &mut Ctx, rep: &mut Report) {
     if ctx.wants("encode") {
         rep.space(
             "encode",
-            "encode / encode_raw / encode_into through generic, sse2, avx2 and the three dispatcher arms + EncodedSequence::encode, DNA and protein, every length 0..=1100 (valid text, and an invalid byte at the first / last position)",
+            "encode / encode_raw / encode_into through generic, sse2, avx2 and the three dispatcher arms + EncodedSequence::encode, DNA and protein, every length 0..=1100 (valid text, an invalid byte at the first / last position, upper-case letters outside the alphabet at L/4); whatever EncodedSequence::encode accepts is then striped, counted (count_symbols) and displayed",
         );
         for len in lens_dense(quick, true) {
             for alpha in 0..2 {
@@ -89,6 +102,14 @@ pub fn run(ctx: &mut Ctx, rep: &mut Report) {
                     let mut t = texts[0].clone();
                     t[0] = b'z';
                     texts.push(t);
+                    // upper-case letters outside the alphabet (IUPAC ambiguity codes for DNA, B/Z/J/O/U for protein)
+                    if len % 8 == 1 || len == 64 {
+                        for &b in if alpha == 0 { &b"RYSWKMBDHV"[..] } else { &b"BZJOU"[..] } {
+                            let mut t = texts[0].clone();
+                            t[len / 4] = b;
+                            texts.push(t);
+                        }
+                    }
                 }
                 for text in &texts {
                     for cfg in cfgs::ALL_ECFGS {
@@ -100,6 +121,22 @@ pub fn run(ctx: &mut Ctx, rep: &mut Report) {
                         let r = if alpha == 0 { c05::check_one::<Dna>(cfg, text) } else { c05::check_one::<Protein>(cfg, text) };
                         if let Err((_, msg)) = r {
                             memory_panic(rep, "C05", cfg.name(), &msg, || json!({"alphabet": a, "cfg": cfg.name(), "text_bytes": text}));
+                        }
+                        // USE whatever the encoder accepted: stripe it, count its symbols, print it (a symbol value
+                        // outside the alphabet indexes past the K-entry tables)
+                        if let Some(arm) = cfg.arm() {
+                            let used = catch(|| {
+                                cfgs::with_arm(arm, || {
+                                    if alpha == 0 {
+                                        use_encoded::<Dna>(text)
+                                    } else {
+                                        use_encoded::<Protein>(text)
+                                    }
+                                })
+                            });
+                            if let Err(msg) = used {
+                                memory_panic(rep, "C05", cfg.name(), &msg, || json!({"alphabet": a, "cfg": cfg.name(), "text_bytes": text}));
+                            }
                         }
                     }
                 }
@@ -193,7 +230,7 @@ pub fn run(ctx: &mut Ctx, rep: &mut Report) {
     if ctx.wants("score") {
         rep.space(
             "score",
-            "f32 scoring through all 11 configurations (incl. avx2 permute for DNA and gather for protein) x row sub-range menu, lengths 0..=70 and around 96/128/992/1024/1056/2048, widths {1,2,8,15,34,40} (34 and 40 need more look-ahead rows than the 32 reserved)",
+            "f32 scoring through all 11 configurations (incl. avx2 permute for DNA and gather for protein) x row sub-range menu, lengths 0..=70 and around 96/128/992/1024/1056/2048, widths {1,2,8,15,34,40} (34 and 40 need more look-ahead rows than the 32 reserved); motifs nearly as long as the sequence (L in {33,64,96,100,102,128,160,200}, M = L-{0,1,3,4}: fewer valid positions than sequence rows)",
         );
         for len in lens_boundary() {
             for m in [1usize, 2, 8, 15, 34, 40] {
@@ -210,6 +247,7 @@ pub fn run(ctx: &mut Ctx, rep: &mut Report) {
                         matrix: c01::make_matrix("int", m, k, 0),
                         origin: format!("c06 score L={} M={}", len, m),
                         wrap_override: None,
+                        spare_rows: 0,
                     };
                     if !crumb(|| wrap("C01", case.json(None))) {
                         continue;
@@ -226,6 +264,38 @@ pub fn run(ctx: &mut Ctx, rep: &mut Report) {
             if ctx.out_of_time() {
                 rep.cap(format!("score: wall-clock cap at L={}", len));
                 break;
+            }
+        }
+        // motifs nearly as long as the sequence: FEWER valid positions (L-M+1) than sequence rows
+        for len in [33usize, 64, 96, 100, 102, 128, 160, 200] {
+            for d in [0usize, 1, 3, 4] {
+                for alpha in 0..2 {
+                    let mine = ctx.mine(idx);
+                    idx += 1;
+                    if !mine || d >= len {
+                        continue;
+                    }
+                    let m = len - d;
+                    let k = if alpha == 0 { 5 } else { 21 };
+                    let case = c01::Case {
+                        alpha: if alpha == 0 { "dna" } else { "protein" },
+                        seq: model::digit_pattern_wild(len, k, 1, 2),
+                        matrix: c01::make_matrix("int", m, k, 0),
+                        origin: format!("c06 score long motif L={} M={}", len, m),
+                        wrap_override: None,
+                        spare_rows: 0,
+                    };
+                    if !crumb(|| wrap("C01", case.json(None))) {
+                        continue;
+                    }
+                    let o = if alpha == 0 { c01::check_case::<Dna>(&case, &cfgs::ALL_CFGS, true) } else { c01::check_case::<Protein>(&case, &cfgs::ALL_CFGS, true) };
+                    for _ in 0..o.invocations {
+                        rep.eval_distinct(o.nontrivial);
+                    }
+                    for (_, msg, cfg) in &o.failures {
+                        memory_panic(rep, "C01", cfg.map(|c| c.name()).unwrap_or("-"), msg, || case.json(*cfg));
+                    }
+                }
             }
         }
     }
@@ -287,6 +357,7 @@ pub fn run(ctx: &mut Ctx, rep: &mut Report) {
                         matrix: c01::make_matrix("int", m, k, 0),
                         origin: format!("c06 gather L={} M={}", len, m),
                         wrap_override: None,
+                        spare_rows: 0,
                     };
                     if !crumb(|| wrap("C01", case.json(None))) {
                         continue;
@@ -465,7 +536,7 @@ pub fn run(ctx: &mut Ctx, rep: &mut Report) {
                             // exact-capacity CLONE of the configured sequence (no spare rows behind the look-ahead rows)
                             for mode in 0..6 {
                                 let exact = mode >= 3;
-                                let cfg = c02::Config { seq: seq.clone(), matrix: matrix.clone(), threshold: t, block, arm, origin: format!("c06 scan L={} M={}", len, mdig.len()), pre_wrap: if block == 3 { Some(1) } else { None }, exact };
+                                let cfg = c02::Config { seq: seq.clone(), matrix: matrix.clone(), threshold: t, block, arm, origin: format!("c06 scan L={} M={}", len, mdig.len()), pre_wrap: if block == 3 { Some(1) } else { None }, exact, spare: 0 };
                                 let module = if mode % 3 == 0 { "C02" } else { "C03" };
                                 if !crumb(|| {
                                     let mut j = cfg.json();
